@@ -223,12 +223,51 @@ func (s c19Suite) Gen(rng *Rng, tier string, w *bufio.Writer, stats *Stats) {
 			fmt.Fprintln(w, "resume 0")
 			fmt.Fprintln(w, "final")
 		}
+		// (6) source changes between interruption and resume, ONE dimension at a time (a node added with the
+		// relationships unchanged, or a relationship added with the nodes unchanged), to a graph that is already
+		// completed, to the graph in progress, and to a graph not started yet: the first two must be refused, the
+		// last is a legitimate dump of the current source; undoing the change must let the resume complete
+		g3 := genSmallGraphsN(rng, 3, true)
+		header(fmt.Sprintf("db=%d source-change", d), g3, codec, batch, shard)
+		perGraph := func(g genGraph) int {
+			return 6 + 5*(ceil(len(g.nodes), shard)+ceil(len(g.edges), shard)) + len(g.nodes) + len(g.edges)
+		}
+		start1 := 3 + perGraph(g3[0]) // crash points 1..start1 end with the completion checkpoint of graph 0
+		for gi, g := range g3 {
+			for _, dim := range []string{"node", "edge"} {
+				// inside graph 1, after its snapshot checkpoint (2 points) and before its completion
+				k := start1 + 2 + rng.Intn(perGraph(g3[1])-3)
+				fmt.Fprintf(w, "crash %d\n", k)
+				id := 200000 + d*10 + gi
+				add, del := fmt.Sprintf("srcadd %s %d", g.name, id), fmt.Sprintf("srcdelnode %s %d", g.name, id)
+				if dim == "edge" {
+					add = fmt.Sprintf("srcaddedge %s %d %d %d", g.name, id, g.nodes[0].id, g.nodes[0].id)
+					del = fmt.Sprintf("srcdeledge %s %d", g.name, id)
+				}
+				fmt.Fprintln(w, add)
+				fmt.Fprintln(w, "resume 0")
+				if gi == 2 {
+					fmt.Fprintln(w, "final")
+					fmt.Fprintln(w, del)
+				} else {
+					fmt.Fprintln(w, del)
+					fmt.Fprintln(w, "resume 0")
+					fmt.Fprintln(w, "final")
+				}
+				stats.Inc("source_change_rounds")
+			}
+		}
 	}
 }
 
 // genSmallGraphs: 1-2 graphs with 0-5 nodes and 0-4 relationships, small properties.
-func genSmallGraphs(rng *Rng) []genGraph {
-	ng := Pick(rng, []int{1, 1, 2})
+func genSmallGraphs(rng *Rng) []genGraph { return genSmallGraphsN(rng, 0, false) }
+
+// genSmallGraphsN: ng graphs (0 = 1-2 at random); nonEmpty forces at least one node per graph.
+func genSmallGraphsN(rng *Rng, ng int, nonEmpty bool) []genGraph {
+	if ng == 0 {
+		ng = Pick(rng, []int{1, 1, 2})
+	}
 	names := []string{"default", "a/b", "g2"}
 	var graphs []genGraph
 	nextNode, nextEdge := uint64(rng.Intn(2)), uint64(rng.Intn(2))
@@ -240,6 +279,12 @@ func genSmallGraphs(rng *Rng) []genGraph {
 			}
 		}
 		nn := Pick(rng, []int{0, 1, 2, 3, 4, 5})
+		if nonEmpty && nn == 0 {
+			nn = 2
+		}
+		if rng.Chance(1, 3) {
+			nextNode, nextEdge = uint64(rng.Intn(2)), uint64(rng.Intn(2)) // graphs may reuse ids (each numbering from the start)
+		}
 		for i := 0; i < nn; i++ {
 			g.nodes = append(g.nodes, genNode{id: nextNode, kinds: genKinds(rng, []string{"A", "B"}), props: Pick(rng, []string{"-", "{}", `{"n":1}`, `{"s":"x"}`})})
 			nextNode += uint64(1 + rng.Intn(3))
@@ -468,6 +513,40 @@ func (r *c19Runner) Step(_ []string, raw string) string {
 		r.src.db.AddNode(t[1], id, nil, nil)
 		r.srcVersion++
 		return "ok"
+	case len(t) == 5 && t[0] == "srcaddedge":
+		id, e1 := strconv.ParseUint(t[2], 10, 64)
+		st, e2 := strconv.ParseUint(t[3], 10, 64)
+		en, e3 := strconv.ParseUint(t[4], 10, 64)
+		if e1 != nil || e2 != nil || e3 != nil || !r.src.db.HasGraph(t[1]) {
+			return "bad-op"
+		}
+		r.src.db.AddEdge(t[1], id, st, en, "R", nil)
+		r.srcVersion++
+		return "ok"
+	case len(t) == 3 && (t[0] == "srcdelnode" || t[0] == "srcdeledge"):
+		id, err := strconv.ParseUint(t[2], 10, 64)
+		if err != nil || !r.src.db.HasGraph(t[1]) {
+			return "bad-op"
+		}
+		g := r.src.db.Graph(t[1])
+		if t[0] == "srcdelnode" {
+			for i, n := range g.Nodes {
+				if n.ID == id {
+					g.Nodes = append(g.Nodes[:i:i], g.Nodes[i+1:]...)
+					r.srcVersion++
+					return "ok"
+				}
+			}
+		} else {
+			for i, e := range g.Edges {
+				if e.ID == id {
+					g.Edges = append(g.Edges[:i:i], g.Edges[i+1:]...)
+					r.srcVersion++
+					return "ok"
+				}
+			}
+		}
+		return "none"
 	case len(t) == 1 && t[0] == "final":
 		return r.final()
 	}
